@@ -522,6 +522,21 @@ def p_C18(tier, seed):
     # the constructing / bulk operations (they build their own hasher through Default) under every hasher
     f.merge(engines.engine_A("C18", ["pq", "dpq"], n, mp, lambda p: False, ["contents"], hashers=hs, max_states=3,
                              extra_probes=lambda kind, keys, maxp: creation_probes(kind, keys, maxp), wd_name="C18c"))
+
+    # two independently created queues (each with its own hasher instance) appended in both directions, then keyed
+    # operations on the moved and on the clashing items
+    def appends(kind, keys, maxp):
+        pm = "pop" if kind == "pq" else "pop_min"
+        out = []
+        for others in ([], [["z", 1]], [[keys[0], maxp], ["z", 0]], [[keys[0], 0], [keys[-1], maxp], ["z", 1], ["y", 0]]):
+            build = [{"op": "new", "q": 2}] + [{"op": "push", "q": 2, "k": k, "r": r} for k, r in others]
+            after = [{"op": "contents"}, {"op": "change_priority", "k": "z", "r": maxp}, {"op": "remove", "k": keys[0]},
+                     {"op": "push", "k": "z", "r": 0}, {"op": "push", "k": keys[-1], "r": 1}, {"op": pm}, {"op": "contents"}]
+            out.append(build + [{"op": "append", "q": 1, "o": 2}] + after)
+            out.append(build + [{"op": "append", "q": 2, "o": 1}] + [dict(a, q=2) for a in after])
+        return out
+    f.merge(engines.engine_A("C18", ["pq", "dpq"], n, mp, lambda p: False, ["contents", "sorted:pop", "sorted:pop_min"],
+                             hashers=hs, extra_probes=appends, wd_name="C18a", max_states=40))
     nh, nk, no = scope(tier, (10, [16, 40], 300), (40, [16, 40, 100], 1500))
     f.merge(engines.engine_B("C18", ["pq", "dpq"], seed, nh, nk, no, hashers=hs))
     return f
